@@ -339,10 +339,10 @@ def balance : List Token → List TT → Option (List TT)
     else balance r st
 
 /-- the input ends inside a token that would swallow what follows (unterminated string, url, comment, a trailing
-    escape): a space appended to it does not come back as a white-space token of its own -/
+    backslash): a `;` appended to it does not come back as a semicolon token of its own -/
 def openEnded (s : List Char) : Bool :=
-  match (tokenise (s ++ [' '])).getLast? with
-  | some (.whitespace, _) => false
+  match (tokenise (s ++ [';'])).getLast? with
+  | some (.semicolon, _) => false
   | _ => true
 
 def hasBad (ts : List Token) : Bool := ts.any fun t => t.1 == .badString || t.1 == .badUrl
